@@ -11,7 +11,9 @@
 (*     at its turn.                                                               *)
 (* Here a call is a little process:                                               *)
 (*   Save     check (reads previousSaved, lock-free) -> enqueue -> acquire -> act *)
-(*            (the body of BlockSave!DoSaveWith) + release                        *)
+(*            (the body of BlockSave!DoSaveWith) -> if the block is written and   *)
+(*            GateSave: BlockWriter.Save was called and is parked with the mutex  *)
+(*            held until the controller opens the writer gate -> release          *)
 (*   Process  enqueue -> acquire -> new (cancel the old processor, fetch, make)   *)
 (*            -> the processor runs with the mutex held, parked at the gate of    *)
 (*            its proposal until the controller opens it -> finish + release      *)
@@ -30,9 +32,11 @@
 (*   Start(c)   start call c in its own goroutine                                 *)
 (*   Open(f)    open the gate of proposal f (the stub writer's Manifest blocks on *)
 (*              it, i.e. the processor "is still processing")                      *)
+(*   OpenW(f)   open the writer gate of f (the stub writer's Save blocks on it,   *)
+(*              i.e. the block "is still being written")                           *)
 (* and a command is given only when the system is quiet (every call returned,     *)
 (* parked at a gate, or waiting for the held mutex); waiters get the mutex in     *)
-(* arrival order. `hist` records the commands (">P.P1", ">O.P1") and what each     *)
+(* arrival order. `hist` records the commands (">P.P1", ">O.P1", ">OW.P1") and what each *)
 (* one brings about until the system is quiet again ("S.P1.1.P1=saved",           *)
 (* "W.P1.1.P1" = BlockWriter.Save of P1's block, height 1, majority P1).           *)
 (* EmitSched prints every maximal `hist`; check/props/c11.py hands them to the    *)
@@ -84,24 +88,24 @@ Start(n) == /\ pc[n] = "idle"
             /\ started' = started + 1
             /\ Goto(n, IF Rec[n].k = "S" THEN "check" ELSE "lock")
             /\ Note(" >" \o n)
-            /\ UNCHANGED <<vars, holder, lockq, seen>>
+            /\ UNCHANGED <<vars, holder, lockq, seen, mode>>
 Open(n) == /\ pc[n] = "gate"
            /\ MayCommand
            /\ Goto(n, "run")
            /\ Note(" >O." \o Rec[n].f)
-           /\ UNCHANGED <<vars, holder, lockq, seen, started>>
+           /\ UNCHANGED <<vars, holder, lockq, seen, started, mode>>
 
 (* ---- the mutex ---- *)
 Enqueue(n) == /\ pc[n] = "lock"
               /\ lockq' = Append(lockq, n)
               /\ Goto(n, "wait")
-              /\ UNCHANGED <<vars, holder, seen, started, hist>>
+              /\ UNCHANGED <<vars, holder, seen, started, hist, mode>>
 Acquire(n) == /\ pc[n] = "wait" /\ holder = NoCall
               /\ Forced => n = Head(lockq)
               /\ holder' = n
               /\ lockq' = SelectSeq(lockq, LAMBDA d : d # n)
               /\ Goto(n, "crit")
-              /\ UNCHANGED <<vars, seen, started, hist>>
+              /\ UNCHANGED <<vars, seen, started, hist, mode>>
 
 (* ---- Save ---- *)
 SaveCheck(n) ==
@@ -110,7 +114,7 @@ SaveCheck(n) ==
   /\ IF ~CheckUnderLock /\ Rec[n].ah <= prevSaved
        THEN /\ Goto(n, "done") /\ res' = "alreadysaved" /\ Note(" " \o n \o "=alreadysaved")   \* refused on the fast path
        ELSE /\ Goto(n, "lock") /\ UNCHANGED <<res, hist>>
-  /\ UNCHANGED <<cur, prevSaved, wsaves, nops, holder, lockq, started>>
+  /\ UNCHANGED <<cur, prevSaved, wsaves, nops, holder, lockq, started, mode>>
 SaveAct(n) ==
   LET c == Rec[n] IN
   /\ pc[n] = "crit" /\ c.k = "S"
@@ -122,18 +126,18 @@ SaveAct(n) ==
             /\ Note(IF res' = "saved"
                       THEN " W." \o cur.f \o "." \o ToString(cur.h) \o "." \o c.nb \o " " \o n \o "=saved"
                       ELSE " " \o n \o "=" \o res')
-  /\ UNCHANGED <<nops, lockq, seen, started>>
+  /\ UNCHANGED <<nops, lockq, seen, started, mode>>
 OpenW(n) == /\ pc[n] = "wgate"
             /\ MayCommand
             /\ Goto(n, "wrun")
             /\ Note(" >OW." \o Rec[n].f)
-            /\ UNCHANGED <<vars, holder, lockq, seen, started>>
+            /\ UNCHANGED <<vars, holder, lockq, seen, started, mode>>
 SaveFinish(n) ==
   /\ pc[n] = "wrun"
   /\ res' = "saved"
   /\ Release /\ Goto(n, "done")
   /\ Note(" " \o n \o "=saved")
-  /\ UNCHANGED <<cur, prevSaved, wsaves, nops, lockq, seen, started>>
+  /\ UNCHANGED <<cur, prevSaved, wsaves, nops, lockq, seen, started, mode>>
 
 (* ---- Cancel ---- *)
 CancelAct(n) ==
@@ -141,7 +145,7 @@ CancelAct(n) ==
   /\ CancelStep
   /\ Release /\ Goto(n, "done")
   /\ Note(" " \o n \o "=ok")
-  /\ UNCHANGED <<nops, lockq, seen, started>>
+  /\ UNCHANGED <<nops, lockq, seen, started, mode>>
 
 (* ---- Process: newProcessor under the lock, then the processor runs with the lock held ---- *)
 ProcNew(n) ==
@@ -157,7 +161,7 @@ ProcNew(n) ==
      ELSE /\ cur' = [f |-> p.f, h |-> p.h, st |-> "running"]
           /\ Goto(n, "gate")
           /\ UNCHANGED <<res, holder, hist>>
-  /\ UNCHANGED <<prevSaved, wsaves, nops, lockq, seen, started>>
+  /\ UNCHANGED <<prevSaved, wsaves, nops, lockq, seen, started, mode>>
 ProcFinish(n) ==
   LET p == Prop[n] IN
   /\ pc[n] = "run"
@@ -165,7 +169,7 @@ ProcFinish(n) ==
   /\ res' = CASE p.beh = "ok" -> "manifest" [] p.beh = "err" -> "error" [] OTHER -> "nil"
   /\ Release /\ Goto(n, "done")
   /\ Note(" " \o n \o "=" \o res')
-  /\ UNCHANGED <<prevSaved, wsaves, nops, lockq, seen, started>>
+  /\ UNCHANGED <<prevSaved, wsaves, nops, lockq, seen, started, mode>>
 
 LInit == /\ Init
          /\ pc = [n \in Names |-> "idle"]
@@ -174,10 +178,9 @@ LInit == /\ Init
          /\ started = 0
          /\ hist = ""
          /\ mode \in Modes
-LNext == /\ \E n \in Names : \/ Start(n) \/ Open(n) \/ Enqueue(n) \/ Acquire(n)
-                             \/ SaveCheck(n) \/ SaveAct(n) \/ OpenW(n) \/ SaveFinish(n) \/ CancelAct(n)
-                             \/ ProcNew(n) \/ ProcFinish(n)
-         /\ UNCHANGED mode
+LNext == \E n \in Names : \/ Start(n) \/ Open(n) \/ Enqueue(n) \/ Acquire(n)
+                          \/ SaveCheck(n) \/ SaveAct(n) \/ OpenW(n) \/ SaveFinish(n) \/ CancelAct(n)
+                          \/ ProcNew(n) \/ ProcFinish(n)
 LSpec == LInit /\ [][LNext]_lvars
 
 LTypeOK == /\ cur.st \in {"-", "processed", "failed", "unprocessed", "running"}
